@@ -352,6 +352,12 @@ def main(ctx):
         site = dict(THROW_SITES)[sn]
         cases.append({"id": h(["errobj", sn]), "fam": "errobj", "ident": [sn, cls],
                       "src": (ERROR_PROBE % (site, cls, cls)) + "\nlog('END');\n'x';"})
+        # ... also after the script has bound the global name of the constructor (and Error) to something else: the engine's own errors
+        # are instances of the original constructors
+        for rb, rebind in (("function", "%s = function () { };"), ("primitive", "%s = 5;"), ("other-error", "%s = URIError;"), ("error-too", "%s = null; Error = function () { };")):
+            cases.append({"id": h(["errobj-rebound", sn, rb]), "fam": "errobj", "ident": [sn, cls, "rebound:" + rb],
+                          "src": "var KEEP = %s, KEEPE = Error; try { %s } catch (e0) { log('rebind-threw', e0.name); }\n" % (cls, rebind % cls) +
+                                 (ERROR_PROBE % (site, "KEEP", "KEEP")).replace("e instanceof Error", "e instanceof KEEPE") + "\nlog('END');\n'x';"})
     ctxs = ["stmt", "right+", "arg0", "prop", "member-callee"] if ctx.quick else list(skel.CONTEXTS)
     for ident, src in skel.enumerate_skeletons(depth2=True, contexts=ctxs):
         if ident[0] in TRYISH or ident[1] in TRYISH:
